@@ -2294,7 +2294,9 @@ func (c *RemoteClient) handleMessage(ctx context.Context, m *Message) error {
 			message:  m,
 			response: responseChannel,
 		}, c.MessageTimeout()); err != nil {
+			// Nothing will answer on the response channel.
 			logger.Error(ctx, "Failed to add request response : %s", err)
+			break
 		}
 
 		err := <-responseChannel
